@@ -52,6 +52,9 @@ func derefType(t types.Type) types.Type {
 func (g *Gen) fieldKey(st types.Type, i int) string {
 	s := st.Underlying().(*types.Struct)
 	key := "F:" + typeKey(types.Unalias(st)) + "." + s.Field(i).Name()
+	if s.Field(i).Name() == "_" {
+		key += fmtf("%d", i)
+	}
 	g.keyDecl(key, "(Array Int "+g.sortOf(s.Field(i).Type())+")")
 	return key
 }
@@ -713,9 +716,10 @@ func (g *Gen) instr(in ssa.Instruction) {
 	case *ssa.Return:
 		g.ret(in)
 	case *ssa.Panic:
-		if g.fc != nil && g.fc.NoPanic && g.pass == 2 && g.inlineDepth == 0 {
+		if g.fc != nil && g.fc.NoPanic && g.pass == 2 && g.inlineDepth == 0 &&
+			(len(g.fc.NoPanicKinds) == 0 || containsStr(g.fc.NoPanicKinds, "explicit")) {
 			g.callOrd["nopanic:explicit"]++
-			g.oblige("nopanic", fmtf("%s/nopanic#explicit.%d", g.fnLabel(), g.callOrd["nopanic:explicit"]), "false", nil, "explicit panic unreachable", in.Pos())
+			g.oblige("nopanic", fmtf("%s/nopanic#explicit.%d", g.fnLabel(), g.callOrd["nopanic:explicit"]), "false", g.fc.NoPanicProps, "explicit panic unreachable", in.Pos())
 		}
 	default:
 		g.flag("instr:" + strings.TrimPrefix(fmtf("%T", in), "*ssa."))
